@@ -47,11 +47,13 @@ WithTab(st, t, tab) == [st EXCEPT !.tabs[t] = tab]
 
 Step(st, o) ==
   LET tab == st.tabs[o.t] IN
-  CASE o.op = "set" -> {Out(Ret(TRUE, <<>>), WithTab(st, o.t, SetKey(tab, o.k, o.v)))}
+  \* set / append may need memory: under a memory limit they may be refused, and then the table is as it was
+  CASE o.op = "set" -> {Out(Ret(TRUE, <<>>), WithTab(st, o.t, SetKey(tab, o.k, o.v))), Out(Ret(FALSE, <<>>), st)}
     [] o.op = "get" -> {Out(Ret(TRUE, <<Lookup(tab, o.k)>>), st)}
     [] o.op = "has" -> {Out(Ret(HasKey(tab, o.k), <<>>), st)}
     [] o.op = "len" -> {Out(Ret(TRUE, <<IntV(Len(tab))>>), st)}
-    [] o.op = "append" -> {Out(Ret(TRUE, <<>>), WithTab(st, o.t, Append(tab, [k |-> IntV(AppendKey(tab)), v |-> o.v])))}
+    [] o.op = "append" -> {Out(Ret(TRUE, <<>>), WithTab(st, o.t, Append(tab, [k |-> IntV(AppendKey(tab)), v |-> o.v]))),
+                           Out(Ret(FALSE, <<>>), st)}
     [] o.op = "pop" ->
          IF Len(tab) = 0 THEN {Out(Ret(TRUE, <<NilV>>), st)}
          ELSE {Out(Ret(TRUE, <<tab[Len(tab)].v>>), WithTab(st, o.t, SubSeq(tab, 1, Len(tab) - 1)))}
@@ -92,12 +94,12 @@ Spec == Init /\ [][Next]_vars
 DistinctKeys == \A t \in 1..NTabs : \A a, b \in 1..Len(st.tabs[t]) :
                   a # b => st.tabs[t][a].k # st.tabs[t][b].k
 SetGet == \A t \in 1..NTabs : \A k \in KeySet, v \in ValSet :
-            \A out \in Step(st, Op("set", t, k, v, 0)) :
+            \A out \in Step(st, Op("set", t, k, v, 0)) : out.ret.ok =>
               \A g \in Step(out.st, Op("get", t, k, NilV, 0)) : g.ret.vs = <<v>>
 MissingIsNil == \A t \in 1..NTabs : \A k \in KeySet :
                   ~HasKey(st.tabs[t], k) =>
                      \A g \in Step(st, Op("get", t, k, NilV, 0)) : g.ret.vs = <<NilV>>
-AppendRule == \A t \in 1..NTabs : \A out \in Step(st, Op("append", t, NilV, IntV(7), 0)) :
+AppendRule == \A t \in 1..NTabs : \A out \in Step(st, Op("append", t, NilV, IntV(7), 0)) : out.ret.ok =>
                 LET tab == st.tabs[t]  new == out.st.tabs[t] IN
                   /\ Len(new) = Len(tab) + 1
                   /\ new[Len(new)].k.t = "int" /\ new[Len(new)].k.i >= Len(tab)
@@ -112,4 +114,6 @@ PopRule == \A t \in 1..NTabs : \A out \in Step(st, Op("pop", t, NilV, NilV, 0)) 
 \* operations on one table never change another (tables are distinct objects)
 Frame == \A o \in GenOps(st) : \A out \in Step(st, o) :
            \A t \in 1..NTabs : t # o.t => out.st.tabs[t] = st.tabs[t]
+\* a refused operation changes nothing
+RefusedChangesNothing == \A o \in GenOps(st) : \A out \in Step(st, o) : ~out.ret.ok => out.st = st
 =============================================================================
